@@ -1,8 +1,13 @@
 package main
 
 import (
+	"bytes"
 	"fmt"
+	"io"
 	"os"
+	"os/exec"
+	"regexp"
+	"strings"
 
 	"verifharness/checks"
 	"verifharness/vlib"
@@ -26,10 +31,80 @@ func main() {
 		fmt.Fprintln(os.Stderr, "unknown check", id)
 		os.Exit(2)
 	}
+	if os.Getenv("VERIF_SUPERVISED") == "" && vlib.History() == "" {
+		os.Exit(supervise(id, spec.Level))
+	}
 	c := vlib.New(id, spec.Level)
 	if len(os.Args) >= 4 && os.Args[2] == "--replay" {
 		os.Setenv("VERIF_REPLAY", os.Args[3])
 	}
 	spec.Run(c)
 	os.Exit(c.Finish())
+}
+
+var reGoroutineFn = regexp.MustCompile(`(?m)^(github\.com/ovh/kmip-go[^\s(]*)\(`)
+
+// supervise runs the check in a child process. Several checks drive the library's own goroutines (client and server
+// connections): a panic in one of them - there is no recover in the read and write loops - kills the whole process. The
+// supervisor turns such a death into a violation (with the crash report as replay material) instead of an inconclusive exit.
+func supervise(id, level string) int {
+	cmd := exec.Command(os.Args[0], os.Args[1:]...)
+	cmd.Env = append(os.Environ(), "VERIF_SUPERVISED=1")
+	cmd.Stdout = os.Stdout
+	var errBuf bytes.Buffer
+	cmd.Stderr = io.MultiWriter(&tailWriter{w: os.Stderr, max: 4000}, &errBuf)
+	err := cmd.Run()
+	if err == nil {
+		return 0
+	}
+	code := 2
+	if ee, ok := err.(*exec.ExitError); ok {
+		code = ee.ExitCode()
+	}
+	if code == 0 || code == 1 {
+		return code
+	}
+	se := errBuf.String()
+	i := strings.Index(se, "panic: ")
+	if j := strings.Index(se, "fatal error: "); j >= 0 && (i < 0 || j < i) {
+		i = j
+	}
+	if i < 0 {
+		return code // not a crash of the code under test: machinery failure, reported as such
+	}
+	report := se[i:]
+	if len(report) > 6000 {
+		report = report[:6000]
+	}
+	first := report
+	if k := strings.Index(first, "\n"); k >= 0 {
+		first = first[:k]
+	}
+	site := "?"
+	if m := reGoroutineFn.FindStringSubmatch(report); m != nil {
+		site = strings.TrimPrefix(m[1], "github.com/ovh/")
+	}
+	c := vlib.New(id, level)
+	c.Rule = "the check process was killed by a panic in a goroutine of the library (the check itself did not finish; counts are not available for this run)"
+	c.Eval([]byte("crashed run: "+first), true) // the one thing this run established
+	c.Violation("process-crashed:"+site+":"+checks.ErrClass(fmt.Errorf("%s", first)), "the process running the check died: "+first+" (in "+site+")", map[string]any{"kind": "crash-report", "stderr": report})
+	return c.Finish()
+}
+
+// tailWriter passes at most max bytes through (a crashing process can dump a lot).
+type tailWriter struct {
+	w   io.Writer
+	max int
+}
+
+func (t *tailWriter) Write(p []byte) (int, error) {
+	if t.max > 0 {
+		q := p
+		if len(q) > t.max {
+			q = q[:t.max]
+		}
+		t.max -= len(q)
+		_, _ = t.w.Write(q)
+	}
+	return len(p), nil
 }
